@@ -144,3 +144,15 @@ Proof.
   - destruct S1 as [_ [A1 B1]], S2 as [_ [A2 B2]].
     apply Nat.le_antisymm; [apply B1 | apply B2]; assumption.
 Qed.
+
+(** ... nor the layers. *)
+Lemma s_layers_unique : forall sh1 sh2 g, perm_oracle sh1 -> perm_oracle sh2 -> wf g ->
+  forall l1 l2, check_dag sh1 g = VOk l1 -> check_dag sh2 g = VOk l2 ->
+  length l1 = length l2 /\ forall i v, In v (nth i l1 []) <-> In v (nth i l2 []).
+Proof.
+  intros sh1 sh2 g O1 O2 W l1 l2 E1 E2.
+  pose proof (check_dag_spec sh1 O1 g W) as S1. pose proof (check_dag_spec sh2 O2 g W) as S2.
+  rewrite E1 in S1. rewrite E2 in S2.
+  destruct S1 as [_ [_ [L1 _]]], S2 as [_ [_ [L2 _]]].
+  eapply layered_unique; eauto.
+Qed.
